@@ -99,6 +99,42 @@ func genC15(g GenCtx) interface{} {
 		sc.Sim.Strategy.StallPermille = 0
 		return sc
 	}
+	if g.Idx%8 == 3 {
+		// hand-over relists: every cached object comes back rejected (and newer)
+		// while another one takes its place - the cache is never empty, and no
+		// reader may see it empty
+		sc.Filter = world.FilterSpec{Op: "labels", K: "app", V: "a"}
+		ver := 1
+		var ops []CacheOp
+		keys := [][2]string{{"n1", "a"}, {"n1", "b"}, {"n2", "a"}}
+		in := 0
+		for i := 2 + rng.Intn(5); i > 0; i-- {
+			var l []world.Spec
+			for k, key := range keys {
+				ver++
+				lab := "b"
+				if k == in {
+					lab = "a"
+				}
+				l = append(l, world.Spec{NS: key[0], Name: key[1], RV: strconv.Itoa(ver), Labels: map[string]string{"app": lab}})
+			}
+			// the accepted one last, first, or in the middle
+			rng.Shuffle(len(l), func(i, j int) { l[i], l[j] = l[j], l[i] })
+			ops = append(ops, CacheOp{Op: "sync", List: l})
+			in = (in + 1 + rng.Intn(2)) % len(keys)
+		}
+		sc.Writers = [][]CacheOp{ops}
+		for r := 1 + rng.Intn(4); r > 0; r-- {
+			var rops []string
+			for i := 2 + rng.Intn(5); i > 0; i-- {
+				rops = append(rops, "list")
+			}
+			sc.Readers = append(sc.Readers, rops)
+		}
+		sc.Sim = SimCfg{Strategy: randStrategy(rng, []string{"newCache>c.run", "runC15>func"}), PermuteMaps: true, MaxSteps: 200000, EstSteps: 3000}
+		sc.Sim.Strategy.StallPermille = 0
+		return sc
+	}
 	sc.Filter = randFilter(rng)
 	nw := 1 + rng.Intn(2)
 	nkeys := 1 + rng.Intn(3)
